@@ -81,6 +81,7 @@ func main() {
 	if *layoutFlag {
 		rules.DumpLayout(p)
 		rules.DumpIndexSites(p)
+		rules.DumpViewCounts(p)
 		return
 	}
 	if *dump != "" {
